@@ -527,7 +527,17 @@ class Conn:
             raise HarnessError("handler did not finish after disconnect")
 
     def frames(self, start=0):
-        return [json.loads(m) for m in self.out[start:]]
+        """parsed frames; a frame that is not JSON (or not a non-empty array) becomes ["<INVALID-FRAME>", raw]"""
+        out = []
+        for m in self.out[start:]:
+            try:
+                f = json.loads(m)
+                if not (isinstance(f, list) and f):
+                    raise ValueError("not an array")
+            except ValueError:
+                f = ["<INVALID-FRAME>", m[:300]]
+            out.append(f)
+        return out
 
     def idle(self):
         """every fed message has been completely handled"""
